@@ -19,6 +19,11 @@ Argument kinds generated (only where the method's code accepts them):
 
 Dropped w.r.t. DESIGN.md: immutable sets (error behaviour of frozen sets is not in the statement); relative entry
 paths; paths starting with exactly two slashes (POSIX keeps "//" distinct, normpath preserves it).
+Results are first-class: every set returned by difference/intersection/union/symmetric_difference (and by a
+relocation), and every contentsSet passed as an argument, joins a pool of named sets with its own independent model
+dict; `select` ops (and the `goto` flag) make such a set the target of the following ops, and after every op *all*
+pool members are compared with their models, so a result that shares state with an operand (e.g. a `return self`
+shortcut for an empty argument) shows up as a model mismatch of the set that was not the target (`aliasing:*`).
 After a detected divergence the real set is rebuilt from the model so later ops are still checked (collect mode).
 """
 import os
@@ -42,7 +47,9 @@ RULE = (
     "hypothesis lists of JSON ops over a small path universe (components a,b,'x y',e-acute; depth 0-3) with spellings "
     "decorated by //, /./, /x/../, trailing slashes; one evaluation = one op applied to (real set, model); non-trivial = "
     "the op's argument is a path string or contains at least one unnormalised spelling (entry or string) or is a "
-    "relocation/add_missing_directories on a non-empty set; distinct = distinct (state keys, op)"
+    "relocation/add_missing_directories on a non-empty set, or it mutates a set that was returned by a non-updating op "
+    "(results of non-updating ops and set arguments join a pool of named sets, each with its own model; select/goto "
+    "make them targets of later ops); distinct = distinct (target, state keys, op)"
 )
 ASSUMPTIONS = [
     "entries are built the way livefs/tar/CONTENTS readers build them: absolute location, strict=False with mode/uid/gid/mtime",
@@ -61,6 +68,9 @@ UPDATE_OPS = ("difference_update", "intersection_update", "symmetric_difference_
 PRED_OPS = ("issubset", "issuperset", "isdisjoint")
 E_KINDS = ("cset", "ocset", "iter_e", "list_e", "set_e")
 S_KINDS = ("iter_s", "list_s", "set_s")
+NONUPDATE_BINOPS = ("difference", "intersection", "union", "symmetric_difference")
+MUTATING_OPS = ("add", "del", "remove", "discard", "clear", "add_missing_directories") + UPDATE_OPS
+POOL_MAX = 8
 
 
 # ---------------------------------------------------------------- reference normalisation
@@ -168,13 +178,16 @@ def lookup_arg():
 def coll_arg(strings_ok):
     # "state": additionally put all / every second key of the current state (respelled from deco on) into the argument
     state = st.sampled_from([None, None, "all", "half"])
+    # "goto": after a non-updating op continue the history on the returned set (results are first-class sets of the pool)
     ents = st.fixed_dictionaries(
-        {"kind": st.sampled_from(E_KINDS), "items": st.lists(entry_spec(), max_size=4), "state": state, "deco": st.integers(0, 5)}
+        {"kind": st.sampled_from(E_KINDS), "items": st.lists(entry_spec(), max_size=4), "state": state, "deco": st.integers(0, 5),
+         "goto": st.booleans()}
     )
     if not strings_ok:
         return ents
     strs = st.fixed_dictionaries(
-        {"kind": st.sampled_from(S_KINDS), "items": st.lists(spelling(), max_size=4), "state": state, "deco": st.integers(0, 5)}
+        {"kind": st.sampled_from(S_KINDS), "items": st.lists(spelling(), max_size=4), "state": state, "deco": st.integers(0, 5),
+         "goto": st.booleans()}
     )
     return st.one_of(ents, ents, strs)
 
@@ -204,6 +217,8 @@ def op_strategy():
             ),
         ),
         st.tuples(st.just("len_iter"), st.none()),
+        # switch the target of the following ops to another set of the pool (0 = most recently created)
+        st.tuples(st.just("select"), st.sampled_from([0, 0, 0, 1, 1, 2, 3, 5])),
     ]
     alts = alts + alts + [st.tuples(st.just("clear"), st.none())]
     return st.one_of(*alts).map(list)
@@ -230,9 +245,11 @@ class Machine:
         self.contents = contents
         self.fs = fs
         self.n = 0
-        self.ordered = bool(case.get("ordered"))
+        # pool of named sets: every set that exists in the history (the initial one, results of non-updating ops,
+        # contentsSet arguments) with its own independent model dict; `cur` is the target of the next op
+        self.pool = [{"real": None, "model": {}, "ordered": bool(case.get("ordered")), "born": "init"}]
+        self.cur = 0
         ents = [self.mk(s) for s in case["init"]]
-        self.model = {}
         for s, e in zip(case["init"], ents):
             self.model[norm(s["p"])] = e
         self.real = core.guarded(ctx, case, lambda: self.mkset(self.ordered, ents))
@@ -240,6 +257,39 @@ class Machine:
             self.real = None
             return
         self.sync("init", "entries")
+
+    real = property(lambda self: self.pool[self.cur]["real"], lambda self, v: self.pool[self.cur].__setitem__("real", v))
+    model = property(lambda self: self.pool[self.cur]["model"], lambda self, v: self.pool[self.cur].__setitem__("model", v))
+    ordered = property(lambda self: self.pool[self.cur]["ordered"], lambda self, v: self.pool[self.cur].__setitem__("ordered", v))
+
+    def pool_add(self, real, born, goto=False):
+        """register a set created by the code under test (or handed to it) as a first-class set of the history"""
+        if len(self.pool) >= POOL_MAX:
+            return
+        self.pool.append({"real": real, "model": dict(real._dict), "born": born,
+                          "ordered": isinstance(real, self.contents.OrderedContentsSet)})
+        if goto:
+            self.cur = len(self.pool) - 1
+
+    def check_others(self, opname):
+        """every set of the pool that was NOT the target of the op must still equal its own model: a result that
+        shares state with an operand (or two results with each other) shows up here"""
+        tgt = self.pool[self.cur]
+        for i, ent in enumerate(self.pool):
+            if i == self.cur or ent["real"] is None:
+                continue
+            d, m = ent["real"]._dict, ent["model"]
+            if set(d) == set(m) and all(d[k] is m[k] for k in m):
+                continue
+            born = tgt["born"] if tgt["born"] not in ("init", "argument") else ent["born"]
+            self.ctx.violation(
+                f"aliasing:{born}:shares-state", self.case,
+                f"{opname} on pool set #{self.cur} (born from {tgt['born']}) changed pool set #{i} (born from {ent['born']}): "
+                + (f"keys {sorted(d)} != its model {sorted(m)}" if set(d) != set(m) else "same keys, but an entry object was replaced"),
+            )
+            ent["real"] = self.mkset(ent["ordered"], list(m.values()))
+            # break the sharing on the target's side too
+            tgt["real"] = self.mkset(tgt["ordered"], list(tgt["model"].values()))
 
     # -- construction helpers
     def mk(self, spec):
@@ -335,17 +385,25 @@ class Machine:
         """res: contentsSet returned by a non-update op; sources: key -> list of acceptable objects"""
         if not isinstance(res, self.contents.contentsSet):
             self.viol(root, op, "type", f"returned {type(res).__name__}")
-            return
+            return False
         got = res._dict
         if set(got) != set(want_keys):
             self.viol(root, op, "result-keys", f"result keys {sorted(got)} != expected {sorted(want_keys)}")
-            return
+            return False
         for k, v in got.items():
             if not any(v is s for s in sources.get(k, ())):
                 self.viol(root, op, "result-value", f"result value at {k!r} is not taken from an operand")
-                return
+                return False
+        return True
 
     def step(self, op):
+        if op[0] == "select":
+            self.cur = len(self.pool) - 1 - (op[1] % len(self.pool))
+            return
+        self._step(op)
+        self.check_others(op[0])
+
+    def _step(self, op):
         name, arg = op[0], op[1]
         ctx, case = self.ctx, self.case
         model = self.model
@@ -429,8 +487,16 @@ class Machine:
             a, om, allv, root, unn = self.build_coll(arg)
             kind = arg["kind"]
             overlap = bool(set(om) & set(model))
-            self.record(state_keys, op, unn or kind in S_KINDS,
-                        [name, f"{name}:{kind}", root, "arg-overlaps" if overlap else "arg-disjoint"])
+            cls = [name, f"{name}:{kind}", root, "arg-overlaps" if overlap else "arg-disjoint"]
+            if not om:
+                cls.append("empty_argument")
+                if name in NONUPDATE_BINOPS:
+                    cls.append("empty_argument:" + name)
+            elif set(om) == set(model):
+                cls.append("equal_argument")
+            if not model:
+                cls.append("empty_self")
+            self.record(state_keys, op, unn or kind in S_KINDS, cls)
             sk, ok_ = set(model), set(om)
             other_is_set = kind in ("cset", "ocset")
             other_before = dict(a._dict) if other_is_set else None
@@ -481,7 +547,19 @@ class Machine:
                     want = sk | ok_
                 else:
                     want = sk ^ ok_
-                self.check_result_set(root, name, r, want, src)
+                res_ok = self.check_result_set(root, name, r, want, src)
+                tgt = self.cur
+                if other_is_set:
+                    self.pool_add(a, "argument")
+                if res_ok and r.mutable:
+                    self.pool_add(r, name, goto=bool(arg.get("goto")))
+                # compare the operand (not the freshly selected result) with its model below
+                new_cur, self.cur = self.cur, tgt
+                if other_is_set and (set(a._dict) != set(other_before) or any(a._dict[k] is not other_before[k] for k in other_before)):
+                    self.viol(root, name, "other-mutated", "the argument set was modified")
+                self.sync(name, root)
+                self.cur = new_cur
+                return
             if other_is_set and (set(a._dict) != set(other_before) or any(a._dict[k] is not other_before[k] for k in other_before)):
                 self.viol(root, name, "other-mutated", "the argument set was modified")
             self.sync(name, root)
@@ -585,6 +663,8 @@ class Machine:
                     self.viol("reloc", name, "attrs", f"{src!r} -> {e!r}: attributes changed: {bad}")
                     break
             else:
+                if not assign and res.mutable:
+                    self.pool_add(res, name)
                 if assign:
                     self.model = dict(got)
                     self.real = res if res.mutable else self.mkset(self.ordered, list(got.values()))
@@ -594,7 +674,17 @@ class Machine:
             self.sync(name, "reloc")
 
     def record(self, state_keys, op, nontrivial, classes):
-        small = {"state": state_keys, "ordered": self.ordered, "op": op}
+        born = self.pool[self.cur]["born"]
+        classes = list(classes)
+        if born not in ("init", "argument"):
+            classes.append("target_is_result")
+            if op[0] in MUTATING_OPS:
+                classes.append("mutate_result_of_nonmutating_op")
+                classes.append("mutate_result_of:" + born)
+                nontrivial = True
+        elif born == "argument":
+            classes.append("target_is_former_argument")
+        small = {"state": state_keys, "ordered": self.ordered, "target": f"#{self.cur}:{born}", "op": op}
         self.ctx.case(small, nontrivial=bool(nontrivial), classes=classes)
 
 
@@ -690,7 +780,7 @@ def shrink_case(ctx, bucket, case):
         for oi in range(len(cur["ops"])):
             a = cur["ops"][oi][1]
             if isinstance(a, dict):
-                for fld, val in (("state", None), ("deco", 0), ("ref", 0)):
+                for fld, val in (("state", None), ("deco", 0), ("ref", 0), ("goto", False)):
                     if a.get(fld) not in (None, val) and fld in a:
                         cand = copy.deepcopy(cur)
                         cand["ops"][oi][1][fld] = val
